@@ -9,6 +9,7 @@ import (
 	"github.com/aws/aws-sdk-go-v2/service/s3/types"
 	"github.com/versity/versitygw/internal/zzvf"
 	"github.com/versity/versitygw/internal/zzvfos"
+	"github.com/versity/versitygw/s3api/utils"
 	"github.com/versity/versitygw/s3response"
 )
 
@@ -52,6 +53,10 @@ func VfCopyRoundTrip() {
 		in.ContentType = &newType
 		in.Metadata = map[string]string{"owner": newVal}
 	}
+	withChecksum := zzvf.Choice("request_names_checksum_algorithm_sha256", 2) == 1
+	if withChecksum {
+		in.ChecksumAlgorithm = types.ChecksumAlgorithmSha256
+	}
 	_, err = p.CopyObject(vfCtx(), in)
 	if dest == 2 && !replace {
 		zzvf.Assert(err != nil, "copy-onto-itself-without-changes-is-refused")
@@ -71,6 +76,15 @@ func VfCopyRoundTrip() {
 		zzvf.Assert(g.ContentLength != nil && *g.ContentLength == clen, what+"-has-the-source-length")
 		zzvf.Assert(g.ContentType != nil && *g.ContentType == wantType, what+"-content-type")
 		zzvf.Assert(g.Metadata["owner"] == wantMeta, what+"-user-metadata")
+	}
+	if err == nil && withChecksum {
+		// the checksum the copy was asked to compute is the checksum of the object's bytes
+		g, gerr := q.GetObject(vfCtx(), &s3.GetObjectInput{Bucket: &dstBucket, Key: &dstKey, Range: vfStr(""), ChecksumMode: types.ChecksumModeEnabled})
+		zzvf.Assert(gerr == nil, "destination-readable-with-checksum")
+		if gerr == nil {
+			sum := zzvf.Sum256(body)
+			zzvf.Assert(g.ChecksumSHA256 != nil && *g.ChecksumSHA256 == utils.Base64SumString(sum[:]), "stored-checksum-is-the-checksum-of-the-bytes")
+		}
 	}
 	if err == nil {
 		zzvf.Reach("copied")
